@@ -119,4 +119,73 @@ C06 = dict(
     partial='floating-point rounding of the sums',
 )
 
-SPECS = {'C01': C01, 'C06': C06}
+
+# ------------------------------------------------------------------------------------------ C07
+
+def small_all(tol):
+    def chk(vals, line):
+        t = line.split()
+        if not t or t[0] != 'ok': return 'error result ' + line[:80]
+        for i, h in enumerate(t[1:]):
+            if len(h) != 16: continue
+            x = hexd(h)
+            if not (x <= tol): return 'residual %g exceeds %g at output %d' % (x, tol, i)
+        return None
+    return chk
+
+
+def gen_C07(g, tier):
+    n = 25 if tier == 'quick' else 600
+    cs = []
+    betas = [0.1, 0.3, 0.5, 1.0, 2.0, 5.0]
+    for _ in range(n):
+        b = g.choice(betas) if g.random() < 0.6 else g.r.uniform(0.01, 4)
+        w = g.randint(1, 8); ns = g.randint(1, 12); m = g.randint(1, 3 * w + 4)
+        devs = [f32(g.r.gauss(0, 1)) for _ in range(w + m + 2)]
+        s = [g.r.uniform(0.5, 3), g.r.uniform(-0.3, 0.3), g.r.uniform(-0.3, 0.3), g.r.uniform(-0.3, 0.3)]
+        cs.append(Case('mod.seq lognormal %s %d %s' % (dhex(b), m, hexes(devs[:m])), 'cmp', 'sequence-lognormal'))
+        cs.append(Case('mod.seq boxcar %s %d %d %s' % (dhex(b), w, m, hexes(devs[:w - 1 + m])), 'cmp', 'sequence-boxcar'))
+        cs.append(Case('mod.seq square %s %d %d %d %s' % (dhex(b), w, ns, m, hexes(devs[:m])), 'cmp', 'sequence-square'))
+        cs.append(Case('mod.stats %s lognormal %s %d' % (hexes(s), dhex(b), 3), 'cmp', 'stats-lognormal'))
+        cs.append(Case('mod.stats %s boxcar %s %d %d' % (hexes(s), dhex(b), w, w + 2), 'cmp', 'stats-boxcar'))
+        cs.append(Case('mod.stats %s square %s %d %d %d' % (hexes(s), dhex(b), w, ns, w + 2), 'cmp', 'stats-square'))
+        cs.append(Case('mod.transform %s' % hexes([g.r.uniform(0, 4)] + [g.r.uniform(-2, 2) for _ in range(4)]), 'cmp', 'transform', check=last_small(1e-14)))
+        cs.append(Case('o.c07.lognormal %s' % dhex(b), 'orc', 'lognormal-moments', check=small_all(1e-5)))
+    for w in range(1, 13 if tier != 'quick' else 8):
+        cs.append(Case('o.c07.boxcar %d %s' % (w, hexes([g.r.uniform(0.5, 2), g.r.uniform(0.01, 2)])), 'orc', 'boxcar-impulse-response', check=small_all(1e-12)))
+        for ns in range(1, 13 if tier != 'quick' else 8):
+            mis = ns < w and w % ns != 0
+            cs.append(Case('o.c07.square %d %d #%s' % (w, ns, 'within-misaligned' if mis else 'within-aligned'), 'orc',
+                           'hold-within-' + ('misaligned' if mis else 'aligned'), check=small_all(1e-12)))
+            cs.append(Case('o.c07.squarelag %d %d 0 #%s' % (w, ns, 'lag0-misaligned' if mis else 'lag0-aligned'), 'orc',
+                           'hold-lag0-' + ('misaligned' if mis else 'aligned'), check=small_all(1e-12)))
+            uniform = (w == 1) or (ns > w and math.gcd(w, ns) == 1)
+            for sl in (1, 2):
+                cs.append(Case('o.c07.squarelag %d %d %d #%s' % (w, ns, sl, 'lagged-uniform-phase' if uniform else 'lagged-restricted-phase'), 'orc',
+                               'hold-lagged-' + ('uniform' if uniform else 'restricted'), check=small_all(1e-12)))
+    return cs
+
+
+def last_small(tol):
+    def chk(vals, line):
+        t = line.split()
+        if not t or t[0] != 'ok': return 'error result ' + line[:80]
+        x = hexd(t[-1])
+        return None if x <= tol else 'Stokes parameters of the modulated field differ from factor * Stokes by %g (relative)' % x
+    return chk
+
+
+C07 = dict(
+    id='C07', module='EpsicProofs.Props.C07', gen=gen_C07,
+    rule='log-normal, boxcar-smoothed and rectangular (sample-and-hold) modulation: factor sequences from scripted deviates and '
+         'all reported statistics compared bit for bit with the model at Float (incl. the cross-correlation table of the '
+         'rectangular model); exact ensemble moments on the implementation: impulse-response enumeration of the real boxcar '
+         'filter (widths 1..12), exhaustive phase-cycle enumeration of the sample-and-hold filter for widths and sample sizes '
+         '1..12 (within a sample, lag 0, sample lags 1 and 2), 16-point Gauss-Hermite quadrature for the log-normal',
+    trusted=['glibc exp/log/sqrt shared by harness and model', 'Gauss-Hermite nodes/weights (oracle only)'],
+    assumptions=['independent draws of the underlying factor source'],
+    partial='rectangular model when the impulse width is not aligned with the sample size, and between samples unless the phase is '
+            'uniformly visited (known findings); floating-point rounding',
+)
+
+SPECS = {'C01': C01, 'C06': C06, 'C07': C07}
